@@ -541,6 +541,28 @@ fn random_run(rng: &mut Rng, prof: &Profile, sink: &mut Sink<GlideEngine>) {
     if rng.chance(0.9) {
         t.push(Ev::SetTime(gen_time(rng, fs, n_target, chaos).to_bits()));
     }
+    // long-running blocks (where narrow counters wrap), in a small share of the runs
+    if rng.chance(0.02) {
+        let n = rng.near_pow2(false);
+        if rng.chance(0.5) {
+            // the panel task writing alternating settings many times, a sample or none in between
+            let a = gen_time(rng, fs, n_target, chaos);
+            let b = gen_time(rng, fs, n_target, chaos);
+            let with_samples = rng.chance(0.5);
+            for i in 0..n {
+                t.push(Ev::SetTime(if i % 2 == 0 { a } else { b }.to_bits()));
+                if with_samples {
+                    t.push(Ev::Hold(gen_input(rng).to_bits(), 1));
+                }
+            }
+        } else {
+            // a long hold
+            t.push(Ev::Hold(gen_input(rng).to_bits(), 65_536 + rng.below(64) as u32));
+            t.push(Ev::Hold(gen_input(rng).to_bits(), rng.range(1, 400) as u32));
+        }
+    }
+    let budget = budget + t.ctx.steps;
+    let max_events = max_events + t.evs.len();
     while !t.dead && t.ctx.steps < budget && t.evs.len() < max_events {
         let n_eff = t.exec().t_eff().map(|x| x.min(10.0).max(0.0) as f64 * fs as f64).unwrap_or(0.0);
         let left = budget.saturating_sub(t.ctx.steps).max(1);
